@@ -20,7 +20,8 @@ RULE = ('Generated issuing parameters: key names (identity of 0..3 components + 
         'component of any type, subject key from the pool (EC P-256/384/521, RSA-1024/2048, Ed25519), issuing signer in {ECDSA three '
         'curves with pinned nonce (DER lengths vary), RSA, Ed25519, HMAC, synthetic (R reserved, r written)} with a drawn key-locator '
         'name; derive_cert start times naive or UTC-aware in years 1900..9990 biased to 31 Dec 23:59:59 / 1 Jan / 28-29 Feb and '
-        'durations 0 s..100 y; self_sign / sign_req under a patched clock. Oracle: strict decode (one Data TLV, exact lengths), name == '
+        'durations 0 s..100 y; self_sign / sign_req under a patched clock; one case in six with a re-entrant signer (signs an audit Data '
+        'inside write_signature_value), one in five issues again with the same signer object after its key_locator_name was changed. Oracle: strict decode (one Data TLV, exact lengths), name == '
         'key name + [issuer, version(clock)], Content == public key, ContentType KEY, NotBefore/NotAfter == independently rendered '
         'instants, SignatureType and KeyLocator of the signer, signature verifies (pycryptodome) over the strict signed portion, '
         'parse_certificate / parse_data return the same fields. Non-trivial = signature shorter than reserved, or total size within '
